@@ -2932,6 +2932,9 @@ namespace adept {
 	// Innermost loop
 	for (int index = 0; index < istartvec; ++index) {
 	  // Scalar version
+#ifdef RJHOGAN_ADEPT_2_VERIF
+	  ++verif::simd_log().head;
+#endif
 	  t[index] = rhs.next_value_contiguous(ind);
 	}
 	for (int index = istartvec ; index < iendvec;
@@ -2939,10 +2942,16 @@ namespace adept {
 	  // Vectorized version
 	  //	    rhs.next_packet(ind).put(data_+index)
 	  // FIX may need unaligned store
+#ifdef RJHOGAN_ADEPT_2_VERIF
+	  ++verif::simd_log().packets;
+#endif
 	  rhs.next_packet(ind).put(t+index);
 	}
 	for (int index = iendvec ; index < dimensions_[0]; ++index) {
 	  // Scalar version
+#ifdef RJHOGAN_ADEPT_2_VERIF
+	  ++verif::simd_log().tail;
+#endif
 	  t[index] = rhs.next_value_contiguous(ind);
 	}
       }
@@ -2996,6 +3005,9 @@ namespace adept {
 	  // Innermost loop
 	  for ( ; i[last] < istartvec; ++i[last], ++index) {
 	    // Scalar version
+#ifdef RJHOGAN_ADEPT_2_VERIF
+	    ++verif::simd_log().head;
+#endif
 	    data_[index] = rhs.next_value_contiguous(ind);
 	  }
 	  Type* const __restrict t = data_; // Avoids an unnecessary load for some reason
@@ -3004,10 +3016,16 @@ namespace adept {
 	    // Vectorized version
 	    //	    rhs.next_packet(ind).put(data_+index);
 	    // FIX may need unaligned store
+#ifdef RJHOGAN_ADEPT_2_VERIF
+	    ++verif::simd_log().packets;
+#endif
 	    rhs.next_packet(ind).put(t+index);
 	  }
 	  for ( ; i[last] < dimensions_[last]; ++i[last], ++index) {
 	    // Scalar version
+#ifdef RJHOGAN_ADEPT_2_VERIF
+	    ++verif::simd_log().tail;
+#endif
 	    data_[index] = rhs.next_value_contiguous(ind);
 	  }
 	  advance_index(index, my_rank, i);
